@@ -40,6 +40,7 @@ import (
 )
 
 type vcliC18Params struct {
+	Strict    int    `json:"strict_max_concurrent_streams"` // 0: off; n>0: StrictMaxConcurrentStreams with the server announcing a limit of n (requests queue on the connection)
 	Requests  int    `json:"requests"`
 	Bodies    []int  `json:"body_sizes"` // -1: GET
 	Replay    []bool `json:"get_body_defined"`
@@ -107,9 +108,14 @@ func vcliC18Session(r *verifrt.R, c *verifrt.Case) {
 	p.Second = rng.IntN(4) == 0
 	p.DelayPct = pick(0, 0, 50, 100)
 	p.StartLate = rng.IntN(p.Requests + 1)
+	if rng.IntN(3) == 0 {
+		// requests wait on the connection for a stream slot: a request that was already
+		// queued when the GOAWAY arrives must not open a stream on that connection either
+		p.Strict = pick(1, 2, 2, 3, 4)
+	}
 	c.Describe(p)
 
-	tr := &Transport{}
+	tr := &Transport{StrictMaxConcurrentStreams: p.Strict > 0}
 	s := vcliNewSession(r, c, tr)
 	s.CheckStreams = true
 	s.CheckGoAway = true
@@ -172,7 +178,12 @@ func vcliC18Session(r *verifrt.R, c *verifrt.Case) {
 			}
 			if !ci.greeted {
 				ci.greeted = true
-				sc.SendSettings(h2ref.Setting{ID: h2ref.SettingInitialWindowSize, Val: uint32(p.InitWin)})
+				ss := []h2ref.Setting{{ID: h2ref.SettingInitialWindowSize, Val: uint32(p.InitWin)}}
+				if p.Strict > 0 {
+					ss = append(ss, h2ref.Setting{ID: h2ref.SettingMaxConcurrentStreams, Val: uint32(p.Strict)})
+					r.Event("strict_mode_connections", 1)
+				}
+				sc.SendSettings(ss...)
 			}
 		}
 	}
